@@ -11,7 +11,9 @@ REQUIRED_THEOREMS = ["Gv.Props.C13." + n for n in [
     # the Go-mirroring model of Deduplicate
     "dedup_model_eq_reference", "firstOccs_mem_iff", "dedup_keeps_first_occurrences_in_order",
     "dedup_groups_partition_names", "dedup_group_led_by_kept", "dedup_idempotent",
-    "dedupKey_spec", "dedupKey_nt_eq_iff"]]
+    "dedupKey_spec", "dedupKey_nt_eq_iff",
+    # kernel-checked witnesses that the distinct-names assumption is needed
+    "dedup_repeated_names_renamed", "dedup_repeated_names_dropped"]]
 LEVEL_TEXT = ("Lean theorems, all inputs: (Compress) the model of Compress() keeps names and row order, gives every row the new "
               "length and one positive weight per new column; the new columns are pairwise distinct, the weights sum to the number of "
               "sites, expanding each new column by its weight is a rearrangement of the original columns, each new column occurs among "
@@ -33,7 +35,9 @@ RULE = ("exhaustive: all alignments of <= 3 rows x <= 4 columns over {A,C,-} (co
         "over {A,N,-} (dedup); random larger ones incl. all-identical, all-distinct, single row / column; non-trivial = at least one "
         "repeated and one unique pattern/row")
 PARTIAL = ["de-duplication theorems assume pairwise distinct names (the container invariant of C01; with a name repeated by a caller's "
-           "Rename the re-adding renames or drops rows and the reference model leaves the result unspecified)",
+           "Rename the re-adding renames the kept rows, or under IGNORE_NAME drops rows with distinct sequences while still reporting "
+           "their groups: dedup_repeated_names_renamed / dedup_repeated_names_dropped; the reference model of C01 leaves that case "
+           "unspecified)",
            "Compress: the order of the new columns (increasing byte order, go-radix Walk) is an assumption of the model checked by "
            "correspondence; no theorem depends on it except patternTable_spec's sortedness clause",
            "Compress on the empty alignment sets the length to 0 instead of -1 (outside the quantifier, modelled as is)"]
